@@ -204,8 +204,8 @@ def r3(R, tus, nm, lm):
                     R.check(bool(sib), "C13.R3", f.file, s.line, f.name, "%s paired with a store to %s[%s]" % (estr_top(s.e), loutp, x),
                             "a cell is marked done (l=0) without its label being written in the same block: a later walk "
                             "that stops there copies the previous content of the output buffer")
-    if npair < 5:
-        R.fail("C13.R3 found %d 'l[x] = 0' stores, expected at least 5" % npair)
+    if npair < 3:
+        R.fail("C13.R3 found %d 'l[x] = 0' stores, expected at least 3" % npair)
     # data-dependent reads of lout only where l[idx] == 0
     cfg = lm.cfg
     lp, loutp = lm.params[2].name, lm.params[1].name
